@@ -197,8 +197,7 @@ def c11_units(tier):
     ]
     us.append(Unit("validate-vs-spec-3", hs, "zzC11_Validate_T3A1", {"loop": 40, "rec": 4}, bounds="plan documents with <=3 tasks, <=1 after entry each (cycles of length 3 included); 3 tasks with 2 after entries each did not finish in an hour and is not registered"))
     us.append(Unit("plan-all-or-nothing", ["c10.go", "c11.go", "c03.go"], "zzC04_PlanAtomic", {"loop": 40, "rec": 3, "stubs": "hasCycle=zzHasCycleSpec,hasPlanCycle=zzPlanCycleSpec,sortedKeys=zzSortedKeysCut", "only": "C11/"}, note="file model with symbolic crash point (see C03/C04)", bounds="clean log of <=1 event; plan of 1 task; killed at any effect index; stale temp file possible"))
-    # zzC11_Run_Fan3 (3 entries, only the last with <=3 after entries; reply edges vs read) is NOT registered: it reports seed C11k
-    # but on the unchanged tree two unwinding obligations (replayEvents at loop 40, sortedKeys at loop 90) stay open and it costs ~190 s.
+    us.append(Unit("plan-reply-fan3", ["c10.go", "c11.go", "c03.go"], "zzC11_Run_Fan3", {"loop": 90, "rec": 3, "stubs": "hasCycle=zzHasCycleSpec,hasPlanCycle=zzPlanCycleSpec,sortedKeys=zzSortedKeysCut", "only": "C11/,C16/"}, note="sortedKeys (display-only Deps/RDeps slices) CUT as in the file-model units", bounds="store of 1 item; plan of exactly 3 tasks where only the last has after entries (<=3, repeats in any order included); the reply's edge list against the replayed store; loops unwound to 90 with unwinding assertions"))
     if tier == "thorough":
         us.append(Unit("run-plan-a2", hs, "zzC11_Run_T2A2", {"loop": 40, "rec": 3, "stubs": "hasCycle=zzHasCycleSpec,hasPlanCycle=zzPlanCycleSpec", "only": "C11/,C16/", "_wall": 7000}, bounds="plan of <=2 tasks with <=2 after entries each"))
     return us
